@@ -223,4 +223,53 @@ example : ((PRm.new 10 : PRm Nat).run none none [.add 1 2 0, .del 7 8 0, .add 2 
     ((PRm.new 10 : PRm Nat).run none none [.add 1 2 0, .del 7 8 0, .add 2 3 0, .clear, .add 2 3 0]).hasLink none none 1 3 0 = false := by
   decide +kernel
 
+
+/-! ### … and with a domain-matching function installed -/
+
+/-- **with a domain-matching function**: a role is reported for a request domain exactly when it is reported in one
+of the stored domains the function matches — so it is reachable there (whatever the depth), and every role reachable
+below the limit in a matched domain is reported -/
+theorem patdom_hasLink_iff (rm : RoleMgr α) (df : RoleFn α) (a b d : α) (hab : a ≠ b) :
+    rm.toP.hasLink none df a b d = true ↔ ∃ k ∈ rm.toP.matchedDomains df d, rm.hasLink a b k = true := by
+  rw [hasLink_toP_df rm df a b d hab, List.any_eq_true]
+
+theorem patdom_sound (rm : RoleMgr α) (df : RoleFn α) (a b d : α) (hab : a ≠ b)
+    (h : rm.toP.hasLink none df a b d = true) :
+    ∃ k ∈ rm.toP.matchedDomains df d, Reach (rm.graph k) a b := by
+  obtain ⟨k, hk, hl⟩ := (patdom_hasLink_iff rm df a b d hab).mp h
+  rcases hasLink_sound rm a b k hl with h1 | h1
+  · exact absurd h1 hab
+  · exact ⟨k, hk, h1⟩
+
+theorem patdom_complete (rm : RoleMgr α) (hw : rm.WF) (df : RoleFn α) (a b d k : α) (hab : a ≠ b)
+    (hk : k ∈ rm.toP.matchedDomains df d) (L : Nat) (hL : L < rm.maxLevel) (hp : Path (rm.graph k) a b L) :
+    rm.toP.hasLink none df a b d = true :=
+  (patdom_hasLink_iff rm df a b d hab).mpr ⟨k, hk, hasLink_complete rm hw a b k (Or.inr ⟨L, hL, hp⟩)⟩
+
+/-- the matched domains are the stored ones the function accepts for the request domain -/
+theorem matchedDomains_some (rm : RoleMgr α) (f : α → α → Bool) (d k : α) :
+    k ∈ rm.toP.matchedDomains (some f) d ↔ (rm.graph? k).isSome = true ∧ f d k = true := by
+  simp only [PRm.matchedDomains, RoleMgr.toP, List.map_map, List.mem_filter]
+  constructor
+  · rintro ⟨hm, hf⟩
+    refine ⟨?_, hf⟩
+    have hm' : k ∈ rm.doms.map (·.1) := by simpa [Function.comp] using hm
+    obtain ⟨p, hp, rfl⟩ := List.mem_map.mp hm'
+    unfold RoleMgr.graph?
+    cases hfind : rm.doms.find? (fun x => x.1 = p.1) with
+    | none =>
+      have := List.find?_eq_none.mp hfind p hp
+      simp at this
+    | some q => simp
+  · rintro ⟨hs, hf⟩
+    refine ⟨?_, hf⟩
+    unfold RoleMgr.graph? at hs
+    cases hfind : rm.doms.find? (fun x => x.1 = k) with
+    | none => rw [hfind] at hs; simp at hs
+    | some q =>
+      have hq := List.find?_some hfind
+      have hmem := List.mem_of_find?_eq_some hfind
+      have : k ∈ rm.doms.map (·.1) := List.mem_map.mpr ⟨q, hmem, by simpa using hq⟩
+      simpa [Function.comp] using this
+
 end Casbin.C03
